@@ -111,6 +111,31 @@ PROPS["C06"] = {
     "rule": "case = one session history (all monitors after every step); distinct_nontrivial counts distinct (variant, |A|, |B|, #NAT, #cuts, length bucket) classes",
     "assumptions": ["pair ids are compared within one generation (shadow map reset at Restart)"],
 }
+PROPS["C04"] = {
+    "parts": [part("TestVerifC04", q=8, t=16, tq=900)],
+    "level": "exploration",
+    "engine": "E1 simnet",
+    "technique": "online automaton over the connection-state callback log after every simulation step + interval-sound timing samples (last-received instant set explicitly, monotonic readings bracket the synchronous tick, judged only when the whole silence interval is on one side of every threshold)",
+    "level_text": "Timeout configurations D,F in {0, 20ms, 50ms, 400ms, 3s} x lite/full x controlling/controlled; silences at, just below, just above each threshold and uniform; traffic resuming; the initial checking "
+                  "deadline with millisecond timeouts and real sleeps (bracketed), Restart from Failed; Close/GracefulClose from every state; the automaton also runs over C01/C06 histories (Restart, Failed, filters). "
+                  "Default second-scale timeouts are compared as values, not waited for.",
+    "level_note": "Measure-zero boundaries (silence exactly equal to a threshold) are not judged; samples whose bracketing interval straddles a threshold are counted inconclusive. "
+                  "Restart from Checking does not restart the deadline in the code and the statement does not say either way: not judged.",
+    "rule": "case = one timing sample, deadline sample, close run or session history; distinct_nontrivial counts (D,F,lite,role) timing classes, deadline classes, close-from-state classes and history classes; "
+            "coverage_sets.c04_edges lists the edges of the documented graph that were observed",
+    "assumptions": ["time.Now() readings around a synchronous tick bound the instant at which the agent read the clock"],
+}
+PROPS["C07"] = {
+    "parts": [part("TestVerifC07", q=8, t=16, tq=900)],
+    "level": "exploration",
+    "engine": "E1 simnet",
+    "technique": "conservation monitor over uniquely tagged payloads: the switch observes socket and destination of every written payload, the harness decides eligibility of every inbound datagram from its own knowledge, and the multiset read from Conn must equal the eligible deliveries; byte/packet counters compared with the harness tally",
+    "level_text": "Writes before selection, after it, across re-selection and coordinated Restart; payload sizes 12..8100 with a share that parses as STUN; inbound data from known remotes, unknown sources, "
+                  "right-IP-wrong-port sources, duplicates on the wire; all interleaved with the C01 scheduler (ticks, drops, reorder, trickle).",
+    "level_note": "UDP only: 'known address on the other transport' cannot be produced in the simulation and is not covered. Readers are drained after every step via the packet buffer count, so Read never blocks.",
+    "rule": "case = one session history with data steps; distinct_nontrivial counts (|A|,|B|,#NAT,#cuts,restart,payloads-read bucket) classes; counters give writes, eligible and ineligible inbound payloads",
+    "assumptions": ["a payload 'parses as STUN' iff stun.IsMessage accepts it"],
+}
 PROPS["C05"] = {
     "parts": [part("TestVerifC05", q=8, t=16, tq=900)],
     "level": "exploration",
